@@ -385,6 +385,18 @@ def circuit_current_densities(mesh):
     return J
 
 
+def magnet_direction(lab, centroid):
+    """direction of magnetisation in degrees: the label's angle, or its expression in x, y, r, z, theta (degrees), R
+    evaluated at the element centroid in length units (FEMM manual, block label dialog).  The expressions generated by
+    the checks are arithmetic that reads the same in Lua and in Python."""
+    fn = lab.get("magdirfctn", "")
+    if not fn:
+        return lab.get("magdir", 0.0)
+    cx, cy = float(centroid[0]), float(centroid[1])
+    env = dict(x=cx, y=cy, r=cx, z=cy, theta=math.degrees(math.atan2(cy, cx)), R=math.hypot(cx, cy))
+    return float(eval(fn, {"__builtins__": {}}, env))
+
+
 def magnetostatic_system(mesh):
     prob = mesh.prob
     n = mesh.n
@@ -406,7 +418,7 @@ def magnetostatic_system(mesh):
                 rows.append(idx[i]); cols.append(idx[j]); vals.append(Ke[i, j])
         hc = mat.get("H_c", 0.0)
         if hc != 0:
-            th = math.radians(lab.get("magdir", 0.0))
+            th = math.radians(magnet_direction(lab, mesh.xy_units[list(idx)].mean(axis=0)))
             for s in range(3):
                 i, j = idx[s], idx[(s + 1) % 3]
                 dx, dy = mesh.xy[j] - mesh.xy[i]
